@@ -230,6 +230,11 @@ def rest(ctx):
             adv = adv and len(sw) == 1 and sw[0] in (N.mk_add(N.selfattr("sincereadwritten"), cnt), N.mk_add(N.selfattr("sincereadwritten"), ("call", ("free", "len"), (p.retval,), ())))
     ctx.ob("C10.R4", fi, bool(eof) and all(eof), "read(count) at the end of the substream returns b'' and leaves the pending units and tell() untouched (the caller reports the short read; a later region member must not see a shifted buffer)", key="read eof")
     ctx.ob("C10.R4", fi, adv, "a successful read(count) advances tell() by exactly the units handed out", key="read tell")
+    # the refill loop of a sized read runs exactly while fewer than `count` units are pending (one more round would meet the end of an exactly
+    # fitting substream and report a short read; one fewer would hand out less than asked)
+    refill = [e for p in paths if N.mk_cmp("is not", cnt, N.NONE) in p.guards() for e in p.events if e.kind == "LOOP"]
+    ctx.ob("C10.R4", fi, bool(refill) and all(e["iter"] == N.mk_cmp("<", ("call", ("free", "len"), (rb,), ()), cnt) for e in refill),
+           "read(count) refills exactly while len(rbuffer) < count", key="read refill guard")
     # read() to the end: the units already pending come first, then every decoded chunk in order; the buffer is emptied
     alls = [p for p in paths if p.returns and N.mk_cmp("is", cnt, N.NONE) in p.guards()]
     good = bool(alls)
@@ -290,7 +295,22 @@ def rest(ctx):
         g = ("call", ("free", "len"), (buf,), ())
         bad = [p for p in paths if g in p.guards()]
         ctx.ob("C10.R4", fi, bool(bad) and all(p.outcome[0] == "raise" for p in bad), "close() refuses a non-empty %s" % buf[2], key="close %s" % buf[2])
-    ctx.floor("C10.R4", 20)
+    # the region's stream cannot move: seek() succeeds only for the no-op (absolute, to where the stream stands) and fails otherwise, so that
+    # stream_seek reports a StreamError instead of a Pointer/Peek silently working at the wrong place
+    fi, paths = own_method_paths(ctx, "RestreamedBytesIO", "seek")
+
+    def flat(p):
+        out = set()
+        for g in p.guards():
+            out |= set(g[2]) if g[0] == "bool" and g[1] == "and" else {g}
+        return out
+    quiet = [p for p in paths if p.outcome[0] != "raise"]
+    need = {N.mk_cmp("==", ("param", "whence"), N.const(0)), N.mk_cmp("==", ("param", "at"), N.selfattr("sincereadwritten"))}
+    ctx.ob("C10.R4", fi, bool(quiet) and all(need <= flat(p) for p in quiet) and any(p.outcome[0] == "raise" for p in paths),
+           "seek() of a restreamed region succeeds only when it is absolute and targets the current position, and raises otherwise", key="seek no-op only")
+    fi, paths = own_method_paths(ctx, "RestreamedBytesIO", "tell")
+    ctx.ob("C10.R4", fi, len(paths) == 1 and paths[0].retval == N.selfattr("sincereadwritten"), "tell() of a restreamed region is the count of units read or written so far", key="tell")
+    ctx.floor("C10.R4", 23)
 
     # ---- R3: lookup tables inverse by construction
     rel = [r for r in M.modules if r.endswith("binary.py")][0]
